@@ -10,6 +10,7 @@ import (
 	"encoding/json"
 	"strings"
 	"sync"
+	"time"
 
 	"github.com/bitly/go-simplejson"
 	"github.com/ozontech/file.d/cfg"
@@ -61,12 +62,26 @@ func c14Exec(which int, cs hx.Sx) hx.Sx {
 	case 1:
 		via := int(hx.Int(it[0])) & 1
 		var fns []checkFn
+		var pause time.Duration
 		for _, t := range hx.Items(it[1]) {
-			fn, _, err := construct(nodeFromSx(t), via)
+			n := nodeFromSx(t)
+			fn, _, err := construct(n, via)
 			if err != nil {
 				return obsReject
 			}
 			fns = append(fns, fn)
+			// a ts_cmp "now" node with a sub-second update interval: wait three intervals after every event, so that its
+			// updater goroutine (ts_cmp_op.go startUpdater) has ticked at least twice before the next event is judged
+			n.walk(func(x *rnode) {
+				if x.kind == kTs && x.mode == 1 && x.a < int64(time.Second) {
+					if d := 3 * time.Duration(x.a); d > pause {
+						pause = d
+					}
+				}
+			})
+		}
+		if pause > 50*time.Millisecond {
+			pause = 50 * time.Millisecond
 		}
 		var rows []hx.Sx
 		// ONE Root for the whole sequence, re-decoded for every event: this is what the pipeline's pooled events do, so the
@@ -86,6 +101,9 @@ func c14Exec(which int, cs hx.Sx) hx.Sx {
 				row = append(row, hx.Bool(res))
 			}
 			rows = append(rows, hx.L(row...))
+			if pause > 0 {
+				time.Sleep(pause)
+			}
 		}
 		return hx.L(rows...)
 
